@@ -518,6 +518,18 @@ PairCase(c) ==
   (IF InSeq("broadcast", c.fams) THEN BroadcastClauses(c) ELSE <<>>) \o
   (IF InSeq("compose", c.fams) THEN ComposeClauses(c) ELSE <<>>)
 
+\* ---- treespec_from_collection / named constructors on collections of treespecs made under other option sets --------
+FromCollCase(c) ==
+  LET e == MakeFromCollection(c.t, c.kidspecs, c.cfg) IN
+  Concat([j \in DOMAIN c.outs |->
+     LET o == c.outs[j] IN
+     IF IsErr(e) THEN Chk(o.via \o ":error-class", o.err = e.err)
+     ELSE Chk(o.via \o ":no-error", o.err = "") \o
+          (IF o.err # "" THEN <<>> ELSE
+             Chk(o.via \o ":spec", o.spec = e.spec) \o
+             Chk(o.via \o ":wellformed", WellFormed(o.spec.nodes)) \o
+             Chk(o.via \o ":leaf-warning", o.warned = e.warn))])
+
 \* ---- unflatten -----------------------------------------------------------------------------
 UnflattenCase(c) ==
   LET exp == Unflatten(c.spec, c.leaves, UNION {SubTrees(c.pool[i]) : i \in DOMAIN c.pool})
@@ -591,6 +603,7 @@ Verdict(c) ==
     [] c.op = "sortkeys" -> SortKeys(c)
     [] c.op = "onelevel" -> OneLevelCase(c)
     [] c.op = "inspect" -> InspectCase(c)
+    [] c.op = "fromcoll" -> FromCollCase(c)
     [] OTHER -> <<"unknown-op">>
 
 \* what the specification expects for a case (used by tools/explain.py to annotate replay files)
